@@ -27,7 +27,7 @@ LEVEL = "exploration"
 RULE = (
     "(1) Hypothesis model documents (incl. empty/whitespace frontmatter) under schemas META and SKILL; (2) Hypothesis schemas "
     "(3 policies x 1-4 fields from 18 chains) planted in <cwd>/specs/schemas x instances built from 33 source values (valid, "
-    "missing, unknown, mistyped, prefix/ambiguous enum). Each document in 4 texts: conservative canonical spelling, 2 seeded "
+    "missing, unknown, mistyped, prefix/ambiguous enum). Each document in up to 6 texts: conservative canonical spelling, the same with one META line repeated, 2 seeded "
     "lenient spellings, the emitted canonical text (and its own canonical text); profiles STRICT/STANDARD/LENIENT/ULTRA. "
     "Oracle: equal (status, error set, warning set) across texts per profile via octave_validate (persistent instance), "
     "Validator and octave_write(corrections_only); fix=false canonical == emit(parse_with_warnings(x)); repeat call and "
@@ -81,6 +81,16 @@ def texts_of(doc, seeds):
     for j, s in enumerate(seeds):
         lt, li = docprop.render_case(doc, {"k": "len", "seed": s, "level": [0.4, 0.8][j % 2]})
         out.append((f"lenient-{s}", lt, li))
+    # a repeated META key: the reader keeps one value, so the canonical text carries the key once
+    lines = ct.split("\n")
+    if "META:" in lines:
+        mi = lines.index("META:")
+        simple = [j for j in range(mi + 1, len(lines)) if lines[j].startswith("  ") and not lines[j].startswith("   ") and "::" in lines[j]
+                  and not lines[j].rstrip().endswith("[") and not lines[j].rstrip().endswith("::")]
+        simple = [j for j in simple if all(not lines[x].startswith(("  ", "```")) or x in simple for x in range(mi + 1, j + 1))]
+        if simple:
+            j = simple[-1]
+            out.append(("meta-key-repeated", "\n".join(lines[:j + 1] + [lines[j]] + lines[j + 1:]), ci))
     try:
         c1 = emit(parse(ct))
         out.append(("canonical-text", c1, ci))
@@ -187,7 +197,7 @@ def shard_builtin(ctx: Ctx, sh: int, nshards: int, n: int) -> Stats:
                      for k, v in mf] + [kv for kv in d["meta"] if kv[0] not in keys]
         return d
 
-    strat = hs.builds(build, model.document(depth=2, zones=True, comments=True, max_nodes=3, avoid=AVOID), fm, meta_fix, hs.booleans())
+    strat = hs.builds(build, model.document(depth=3, zones=True, comments=True, max_nodes=3, avoid=AVOID), fm, meta_fix, hs.booleans())
     counter = [0]
 
     def one(doc):
